@@ -163,6 +163,20 @@ def gen_cases(ctx):
         c0 = r.uniform(0.9, 1.1) if ws else 1.0
         y = c0 * (Rc @ loc) + o + np.array([[r.uniform(-1, 1)] for _ in range(3)])
         yield mk("near-aligned", loc + o, y, ws, noise=0.0, rot_about_centre=True)
+    # ---- thin but well-determined sets far from the origin: a nearly straight stretch of road (200 m long, centimetres of
+    # lateral / vertical deviation: second singular value ~1e-7 of the first, far above rounding) in UTM/ECEF-like
+    # coordinates; the rotation is determined, so the input must be aligned, not refused (the rank test is relative to
+    # the spread of the data, not to the size of the coordinates)
+    for j in range(6 if not ctx.thorough else 40):
+        n = r.randint(20, 60)
+        along = sorted(r.uniform(0, 200.0) for _ in range(n))
+        loc = np.array([along, [r.gauss(0, 0.02) for _ in range(n)], [r.gauss(0, 0.01) for _ in range(n)]])
+        o = np.array([[r.choice([-1, 1]) * r.uniform(2e5, 7e6)] for _ in range(3)])
+        x = rand_rot(r) @ loc + o
+        ws = j % 2 == 1
+        c0 = r.uniform(0.5, 2.0) if ws else 1.0
+        y = c0 * (rand_rot(r) @ (x - o)) + np.array([[r.choice([-1, 1]) * r.uniform(1e5, 5e6)] for _ in range(3)])
+        yield mk("thin-offset", x, y, ws, noise=0.0)
     kinds = ["generic", "generic", "noisy", "noisy", "mirrored", "mirrored", "planar", "planar", "offset", "scales",
              "grid", "degenerate", "collinear", "tiny-n", "independent"]
     for k in range(budget):
@@ -796,7 +810,7 @@ def check(ctx):
     # route stream: every unequal-size case and every fifth other plain case again through PosePath3D.align (all poses)
     via = [dict(c, route="align") for k, c in enumerate(cases)
            if c.get("flavour", "T-view") == "T-view" and "ws_as" not in c and c["x"] and c["y"]
-           and (c.get("deg") == "shape" or c["kind"] in ("near-aligned", "offset") or k % 5 == 0)]
+           and (c.get("deg") == "shape" or c["kind"] in ("near-aligned", "offset", "thin-offset") or k % 5 == 0)]
     ctx.notes["route_align_cases"] = len(via)
     cases += via
     evaluate(ctx, cases)
